@@ -220,9 +220,15 @@ def documented(exc: BaseException) -> bool:
     return isinstance(exc, DOCUMENTED)
 
 
+_SYNC_SAVED: list = []
+
+
 def sync_env(net: Net, sched: Sched | None = None):
-    """Prepare a Net for the sync flavour (sequential unless threads are spawned)."""
+    """Prepare the sync flavour for a sequential run: virtual clock, and the shim `threading` namespace so that a
+    call that would block for ever (pool queue, lock) raises SimHang instead of blocking the real thread."""
     from .runners import patch_time
+    from .sched import ShimThreading
+    import httpcore._synchronization as sync_mod
     s = sched or Sched()
     if net is not None:
         net.sched = s
@@ -230,7 +236,20 @@ def sync_env(net: Net, sched: Sched | None = None):
     simnet.ENV["now"] = s.now
     simnet.ENV["sched"] = s
     patch_time(s.now)
+    if not _SYNC_SAVED:
+        _SYNC_SAVED.append(sync_mod.threading)
+    sync_mod.threading = ShimThreading(s)
     return s
+
+
+def sync_env_restore():
+    from . import runners
+    import httpcore._synchronization as sync_mod
+    runners.unpatch_time()
+    simnet.ENV["now"] = None
+    simnet.ENV["sched"] = None
+    if _SYNC_SAVED:
+        sync_mod.threading = _SYNC_SAVED.pop()
 
 
 def run_flavor(flavor: str, net: Net, fn, seed: int = 0, on_idle=None):
@@ -243,9 +262,7 @@ def run_flavor(flavor: str, net: Net, fn, seed: int = 0, on_idle=None):
     try:
         return run_sync(fn())
     finally:
-        runners.unpatch_time()
-        simnet.ENV["now"] = None
-        simnet.ENV["sched"] = None
+        sync_env_restore()
 
 
 async def guarded(flavor: str, fn, horizon: float = 1.0e5):
